@@ -1501,7 +1501,10 @@ def replay_fileiter(ctx, fl):
     nb = fl.get("nbytes", 0)
     # a package whose header says `size` for a file whose archive entry has nb bytes
     big = size > 0xffffffff
-    pk = RB.files_package([b"/"], [(0, b"a", 0o100644, b"", b"x" * nb)], declared_sizes=[size])
+    arch = None
+    if fl.get("stripped"):
+        arch = b"07070X" + b"00000000" + b"x" * nb + b"\0" * ((4 - (14 + nb) % 4) % 4) + RB.cpio_newc([])
+    pk = RB.files_package([b"/"], [(0, b"a", 0o100644, b"", b"x" * nb)], declared_sizes=[size], archive=arch)
     ans = ctx.native.ask("peak", "files", pk.hex())
     parts = ans.split()
     if parts and parts[0] == "panic":
